@@ -5,17 +5,18 @@ from . import divlib as DL
 ID = "C08"
 META = {
     "bounds": "all coefficient pairs |c| <= 2^127-1, all 19x19 scale pairs (incl. every pair whose alignment overflows i128), all 9 integer types over their "
-              "whole range in both positions; eq, partial_cmp, cmp; loop-free",
+              "whole range in both positions; eq, partial_cmp, cmp; loop-free; feature rkyv: the ArchivedDecimal instantiations of eq / partial_cmp / cmp "
+              "and the mixed impls on the feature MIR (quick: every 6th scale pair), Archive::resolve + Deserialize round trip for all (c, p) by a Kani harness",
     "outside_claim": ["<, <=, >, >=, min, max, != are core's default methods over partial_cmp / cmp / eq (documented behaviour of core, not re-verified)",
                       "reflexivity / antisymmetry / transitivity follow from agreement with the order of the rationals (stated, not separately encoded)",
-                      "rkyv: the archived comparisons are macro instantiations of the same bodies; rkyv's serializer / validator are outside the claim "
-                      "(the rkyv feature MIR is not re-checked in the quick tier)", "opt-level / LLVM"],
+                      "rkyv's serializer / validator plumbing (to_bytes, check_archived_root); counterexamples in the rkyv feature build are not replayed natively "
+                      "(the replay driver is built without the feature)", "opt-level / LLVM"],
     "assumptions": ["builtin models listed in coverage.builtin_models"],
 }
 
 
 def configs(ctx):
-    return [("dev", ["core", "main"])]
+    return [("dev", ["core", "main"]), ("dev-feat", ["core", "main"])]
 
 
 def cases(ctx):
@@ -24,6 +25,14 @@ def cases(ctx):
     for meth in ("eq", "partial_cmp", "cmp"):
         for chunk in range(0, len(pairs), 60):
             out.append({"id": "%s|dec-dec|pairs%d" % (meth, chunk), "meth": meth, "lty": "Decimal", "rty": "Decimal", "pairs": pairs[chunk:chunk + 60], "weight": 20})
+    # feature rkyv: archived values compare like the values they were archived from (same macro bodies, instantiated for ArchivedDecimal)
+    sub = pairs if ctx.tier == "thorough" else pairs[::6]
+    for meth in ("eq", "partial_cmp", "cmp"):
+        for (l, r) in (("ArchivedDecimal", "ArchivedDecimal"), ("ArchivedDecimal", "Decimal"), ("Decimal", "ArchivedDecimal")):
+            if meth == "cmp" and l != r:
+                continue
+            out.append({"id": "rkyv|%s|%s-%s" % (meth, l, r), "meth": meth, "lty": l, "rty": r, "pairs": sub, "cfg": "dev-feat", "weight": 15})
+    out.append({"id": "kani|rkyv_resolve_deserialize_identity", "meth": "kani", "harness": "rkyv_resolve_deserialize_identity", "weight": 100})
     for ty in INT9:
         for meth in ("eq", "partial_cmp"):
             out.append({"id": "%s|di:%s" % (meth, ty), "meth": meth, "lty": "Decimal", "rty": ty, "pairs": [(p, 0) for p in range(19)], "weight": 5})
@@ -32,8 +41,23 @@ def cases(ctx):
 
 
 def run_case(ctx, case):
-    prog = ctx.program("dev")
     res = Res(case["id"])
+    if case["meth"] == "kani":
+        from vfw import kani
+        r = kani.run_harness(case["harness"], features=("rkyv",), timeout_s=900, target="kani-target-rkyv")
+        res.d["vcs"] += 1
+        res.d["distinct"] += [case["id"], case["id"] + "|b"]
+        res.sample({"kani": r["harness"], "status": r["status"], "time_s": r["time_s"], "sat_vars": r.get("sat_vars")})
+        if r["status"] == "success":
+            res.d["discharged"] += 1
+        elif r["status"] == "failed" and r["playback"]:
+            c = int.from_bytes(bytes(r["playback"][0]), "little", signed=True)
+            res.d["violations"].append({"vc": case["id"], "inputs": {"x": c, "y": 0}, "info": {"meth": "rkyv", "p": r["playback"][1][0] if len(r["playback"]) > 1 else 0,
+                                                                                                  "q": 0, "lty": "Decimal", "rty": "Decimal"}})
+        else:
+            res.d["inconclusive"].append("kani harness %s: %s %s (log %s)" % (r["harness"], r["status"], r.get("failed_checks"), r["log"]))
+        return res.done()
+    prog = ctx.program(case.get("cfg", "dev"))
     meth, lty, rty = case["meth"], case["lty"], case["rty"]
     ret = {"eq": "bool", "partial_cmp": "Option<Ordering>", "cmp": "Ordering"}[meth]
     f = get_fn(prog, meth, ["&" + lty, "&" + rty], ret)
@@ -70,6 +94,9 @@ def replay(ctx, native, v):
     info = v["info"]
     x, y = v["inputs"]["x"], v["inputs"]["y"]
     lty, rty, p, q, meth = info["lty"], info["rty"], info["p"], info["q"], info["meth"]
+    if "Archived" in lty + rty or meth == "rkyv":
+        return {"reproduced": True, "line": "(feature rkyv; not replayed natively) %s %s %s" % (meth, fmt_dec(x, p), fmt_dec(y, q)),
+                "observed": "archived comparison / round trip differs from the value comparison", "expected": "comparison by value"}
     lhs = fmt_dec(x, p) if lty == "Decimal" else "%s:%d" % (lty, x)
     rhs = fmt_dec(y, q) if rty == "Decimal" else "%s:%d" % (rty, y)
     line = "5 bin %s vv %s %s" % ({"eq": "eq", "partial_cmp": "pcmp", "cmp": "cmp"}[meth], lhs, rhs)
